@@ -29,6 +29,7 @@ import (
 //	crash <i>                                 node i stops without notice
 //	state <i> / check                         members / every running node's members and leader
 type gossipEngine struct {
+	confirm time.Duration // SuspectConfirmDuration of the nodes (0: a stale member is removed at once)
 	timeout time.Duration
 	base    time.Time
 	now     time.Time
@@ -217,11 +218,17 @@ func (e *gossipEngine) Exec(line string) (string, string) {
 	cluster.VerifNow = func() time.Time { return e.now }
 	switch tk[0] {
 	case "cfg":
-		if len(tk) != 4 {
+		// cfg <timeout ms> <nodes> <seeds> [<suspect confirm ms>]
+		if len(tk) != 4 && len(tk) != 5 {
 			return "bad-op", ""
 		}
 		ms, _ := strconv.Atoi(tk[1])
 		n, _ := strconv.Atoi(tk[2])
+		e.confirm = 0
+		if len(tk) == 5 {
+			d, _ := strconv.Atoi(tk[4])
+			e.confirm = time.Duration(d) * time.Millisecond
+		}
 		e.timeout = time.Duration(ms) * time.Millisecond
 		e.base = time.Unix(1_700_000_000, 0)
 		e.now = e.base.Add(time.Second) // t = 1000 ms
@@ -260,7 +267,8 @@ func (e *gossipEngine) Exec(line string) (string, string) {
 		opts := vivid.NewClusterOptions(
 			vivid.WithClusterNodeID(fmt.Sprintf("%d.%d", i, inc)),
 			vivid.WithClusterSeeds(seeds),
-			vivid.WithClusterFailureDetectionTimeout(e.timeout))
+			vivid.WithClusterFailureDetectionTimeout(e.timeout),
+			vivid.WithClusterSuspectConfirmDuration(e.confirm))
 		n := &gnode{idx: i, inc: inc, alive: true}
 		n.act = cluster.NewNodeActor(gAddr(i), *opts)
 		n.act.VerifSetBirth(e.now.UnixNano())
@@ -568,6 +576,32 @@ func (e *gossipEngine) Generate(c *Ctx) {
 					}
 				})
 			}
+			// suspicion: with a confirmation period a partition shorter than timeout + confirmation only makes the
+			// other side Suspect; direct gossip after the heal must clear it (one leader again)
+			for _, cut := range []int{1, n - 1} {
+				cut := cut
+				scen(fmt.Sprintf("cfg 2000 %d 0 1500", n), "partition-suspect", func() {
+					all()
+					settle(3, 400)
+					side := func(i int) bool { return i < cut }
+					for r := 0; r < 7; r++ {
+						from := len(e.bag)
+						for _, i := range alive() {
+							do(fmt.Sprintf("tick %d", i))
+						}
+						for k := from; k < len(e.bag); k++ {
+							if side(e.bag[k].from) == side(e.bag[k].to) {
+								do(e.recvLine(k))
+							}
+						}
+						do("adv 400")
+						for _, i := range alive() {
+							do(fmt.Sprintf("fd %d", i))
+						}
+					}
+				})
+			}
+			scen(fmt.Sprintf("cfg 2000 %d 0 1500", n), "crash-suspect", func() { all(); settle(3, 400); do(fmt.Sprintf("crash %d", n-1)) })
 			scen(fmt.Sprintf("cfg 2000 %d 0,1", n), "two-seeds", all)
 			scen(fmt.Sprintf("cfg 2000 %d 0", n), "late-crash-messages", func() {
 				// messages of the crashed node are still in flight and arrive after the others removed it
